@@ -168,13 +168,19 @@ func execCase(bin string, c *cf.Case, verbose bool) *outcome {
 			} else {
 				// both attempts ended with the running goroutine inside the same library function: a busy loop
 				// that never blocks (the simulator's clock cannot advance past it), not a slow machine
+				// (all common frames are named, innermost first: which callee of the loop happens to be running differs)
+				var common []string
 				for _, fn := range fns {
 					for _, g := range spin0 {
 						if fn == g {
-							o.infra, o.spin, o.crash = "", fn, ""
-							return o
+							common = append(common, fn)
+							break
 						}
 					}
+				}
+				if len(common) > 0 {
+					o.infra, o.spin, o.crash = "", strings.Join(common, " <- "), ""
+					return o
 				}
 			}
 			continue // retry once
